@@ -407,7 +407,6 @@ func (p *Prog) source(file string) []byte {
 	return b
 }
 
-
 // liftHigherOrder makes the call graph context-sensitive for one idiom: a small package function H with a function-
 // valued parameter q that H only ever *calls* (never stores, returns or passes on), that starts no goroutine and touches
 // no mutex. When every call site of H passes a function that is known there (a closure made in place, a named function,
